@@ -416,8 +416,11 @@ class NDCubeBase(NDCubeABC, astropy.nddata.NDData, NDCubeSlicingMixin):
             return self.wcs
 
         mapping = list(range(self.wcs.pixel_n_dim)) + list(self.extra_coords.mapping)
+        extra_coords_wcs = self._extra_coords.wcs
+        if isinstance(extra_coords_wcs, BaseHighLevelWCS):
+            extra_coords_wcs = extra_coords_wcs.low_level_wcs
         return HighLevelWCSWrapper(
-            CompoundLowLevelWCS(self.wcs.low_level_wcs, self._extra_coords.wcs, mapping=mapping)
+            CompoundLowLevelWCS(self.wcs.low_level_wcs, extra_coords_wcs, mapping=mapping)
         )
 
     @property
@@ -469,6 +472,8 @@ class NDCubeBase(NDCubeABC, astropy.nddata.NDData, NDCubeSlicingMixin):
             wcs = wcs.wcs
             if wcs is None:
                 return []
+            if isinstance(wcs, BaseHighLevelWCS):
+                wcs = wcs.low_level_wcs
 
         world_coords = [None] * wcs.world_n_dim
         for (pixel_axes_indices, world_axes_indices) in _split_matrix(wcs.axis_correlation_matrix):
@@ -544,6 +549,8 @@ class NDCubeBase(NDCubeABC, astropy.nddata.NDData, NDCubeSlicingMixin):
             wcs = wcs.wcs
             if not wcs:
                 return tuple()
+            if isinstance(wcs, BaseHighLevelWCS):
+                wcs = wcs.low_level_wcs
 
         # The values are in the units of the WCS, as values_to_high_level_objects requires.
         axes_coords = [coord.value if isinstance(coord, u.Quantity) else coord for coord in axes_coords]
@@ -581,6 +588,8 @@ class NDCubeBase(NDCubeABC, astropy.nddata.NDData, NDCubeSlicingMixin):
         if isinstance(wcs, ExtraCoords):
             extra_coords_mapping = wcs.mapping
             wcs = wcs.wcs
+            if isinstance(wcs, BaseHighLevelWCS):
+                wcs = wcs.low_level_wcs
 
         world_axis_physical_types = wcs.world_axis_physical_types
 
